@@ -15,8 +15,8 @@ import (
 	"strings"
 
 	refaztec "verif/ref/aztec"
-	refqr "verif/ref/qr"
 	refoned "verif/ref/oned"
+	refqr "verif/ref/qr"
 
 	"github.com/makiuchi-d/gozxing"
 	"github.com/makiuchi-d/gozxing/aztec"
@@ -433,8 +433,8 @@ var needs = map[string][]string{
 	"qr-r-utf16be": {"qr-utf16be"}, "qr-r-gb18030": {"qr-gb18030"}, "qr-r-euckr": {"qr-euckr"}, "qr-r-big5": {"qr-big5"}, "qr-r-sjis-byte": {"qr-sjis-byte"}, "qr-r-1251": {"qr-1251"},
 	"qr-r-hint-charset": {"qr-pure"}, "lum-views": {"qr-pure"},
 	"qr-r-v8": {"qr-v8"}, "qr-r-mirrored": {"qr-mirrored"}, "qr-r-mirrored-pure": {"qr-mirrored-pure"}, "qr-r-multi-two": {"qr-two"}, "dm-r-mixed": {"dm-mixed"},
-	"dm-r-sizes":  {"dm-size-0", "dm-size-1", "dm-size-2", "dm-size-3", "dm-size-4", "dm-size-5", "dm-size-6", "dm-size-7", "dm-size-8", "dm-size-9"},
-	"dm-r-rsizes": {"dm-rsize-0", "dm-rsize-1", "dm-rsize-2", "dm-rsize-3", "dm-rsize-4", "dm-rsize-5"},
+	"dm-r-sizes":         {"dm-size-0", "dm-size-1", "dm-size-2", "dm-size-3", "dm-size-4", "dm-size-5", "dm-size-6", "dm-size-7", "dm-size-8", "dm-size-9"},
+	"dm-r-rsizes":        {"dm-rsize-0", "dm-rsize-1", "dm-rsize-2", "dm-rsize-3", "dm-rsize-4", "dm-rsize-5"},
 	"code128-r-sideways": {"code128-sideways"}, "lum-rgb-yuv": {"qr-loc"},
 	"misc-api":    {"dm-pure", "qr-pure", "upca", "aztec-c"},
 	"rows-upcean": {"ean13", "ean8", "upca", "upce"}, "rows-other": {"code39", "code93", "code128", "itf", "codabar"}, "rss14-r-reset": {"rss14"},
